@@ -476,6 +476,9 @@ func (g *genInterp) call(x *ast.CallExpr) Val {
 		if gs, ok := g.eval(x.Args[0]).(GenStr); ok {
 			return gs.Runes
 		}
+		if g.pc.isFalse() {
+			return g.fresh("runes", SInt)
+		}
 	case "len":
 		return g.lenOf(g.eval(x.Args[0]), x.Args[0])
 	case "string":
